@@ -104,13 +104,28 @@ theorem plain_of_counts {y : BTok} (h : starts [y] = ends [y]) : y.isPlain = tru
 def LastLex (tape : Tape) (state : PState) : Prop :=
   (state = .keyValueSeparator ∨ state = .openSecond) → ∃ t0 x, tape = t0 ++ [x] ∧ flatten x = [.tok x]
 
+/-- a value is owed: the `=` behind a key has just been read (`ObjectValue`) -/
+def owed : PState → Bool
+  | .objectValue => true
+  | _ => false
+
 /-- one iteration as a `Move`, and the last-token fact for the next one -/
 def StepMove (st st' : St) : Prop :=
   ∀ L, Lexes st.data L → ∃ L1 L2 o, L = L1 ++ L2 ∧ Lexes st'.data L2 ∧
-    Move (flat st.tape) L1 (flat st'.tape) o ∧ LastLex st'.tape st'.state
+    Move (owed st.state) (flat st.tape) L1 (flat st'.tape) o (owed st'.state) ∧ LastLex st'.tape st'.state
 
-theorem move_keep {A N L1 : List Lx} (h : N = A ++ L1) : Move A L1 N none := by
-  subst h; exact Move.keep A L1
+theorem move_keep {p q : Bool} {A N L1 : List Lx} (h : N = A ++ L1) (hne : L1 ≠ []) (hq : q = false) :
+    Move p A L1 N none q := by
+  subst h; subst hq; exact Move.keep p A L1 hne
+
+/-- a token that stands for itself as a lexeme is a key token -/
+theorem flatten_tok_isKey {x : BTok} (h : flatten x = [.tok x]) : x.isKey = true := by
+  cases x with
+  | rgb r g b a => cases a <;> simp [flatten] at h
+  | _ => first | rfl | (simp [flatten] at h)
+
+theorem nextState_not_owed {s s' : PState} (h : nextState s = some s') : owed s' = false := by
+  cases s <;> simp at h <;> subst h <;> rfl
 
 theorem lastLex_other {tape : Tape} {s : PState} (h1 : s ≠ .keyValueSeparator) (h2 : s ≠ .openSecond) : LastLex tape s := by
   intro h; rcases h with h | h
@@ -134,7 +149,7 @@ theorem scalarArm_move {r : Except Err (Tape × Bytes)} {tape : Tape} {parent : 
       simp [hn] at h; subst h
       intro L hL
       obtain ⟨L', rfl, hL'⟩ := hL.uncons hl
-      exact ⟨[.tok x], L', none, rfl, hL', move_keep (by simp [hx]), fun _ => ⟨tape, x, rfl, hx⟩⟩
+      exact ⟨[.tok x], L', none, rfl, hL', move_keep (by simp [hx]) (by simp) (nextState_not_owed hn), fun _ => ⟨tape, x, rfl, hx⟩⟩
 
 /-- what the only_empties test accepts, as lexemes: `n` empty containers, then at most one more token -/
 theorem allEmptyPairs_lex : ∀ (l : Tape), allEmptyPairs l = true →
@@ -160,7 +175,7 @@ theorem equalArm_move {tape : Tape} {parent : Nat} {state : PState} {d dp : Byte
     obtain ⟨t0, x, rfl, hx⟩ := hll (Or.inl rfl)
     refine ⟨[.equal], L', none, rfl, hL', ?_, lastLex_other (by simp) (by simp)⟩
     simp only [flat_append, flat_cons, flat_nil, hx, List.append_nil]
-    exact Move.eqAfterKey (flat t0) x
+    exact Move.eqAfterKey (flat t0) x (flatten_tok_isKey hx)
   · -- OpenSecond: the `=` behind the first token of the container
     cases hso : setParentToObject tape parent with
     | error e => simp [hso] at h
@@ -171,9 +186,9 @@ theorem equalArm_move {tape : Tape} {parent : Nat} {state : PState} {d dp : Byte
       simp only
       rw [setParentToObject_flat hso]
       simp only [flat_append, flat_cons, flat_nil, hx, List.append_nil]
-      exact Move.eqAfterKey (flat t0) x
+      exact Move.eqAfterKey (flat t0) x (flatten_tok_isKey hx)
   · simp at h; subst h
-    exact ⟨[.equal], L', none, rfl, hL', move_keep (by simp [flatten]), lastLex_other (by simp) (by simp)⟩
+    exact ⟨[.equal], L', none, rfl, hL', move_keep (by simp [flatten]) (by simp) rfl, lastLex_other (by simp) (by simp)⟩
   · cases hp : pop? tape with
     | none => simp [hp] at h
     | some p =>
@@ -245,7 +260,7 @@ theorem equalArm_move {tape : Tape} {parent : Nat} {state : PState} {d dp : Byte
             rw [htake, hsplit]
             exact Move.rewrite (flat (t1.take parent)) n odd last (by omega) hlk hodd
         · simp at h; subst h
-          exact ⟨[.equal], L', none, rfl, hL', move_keep (by simp [flatten]), lastLex_other (by simp) (by simp)⟩
+          exact ⟨[.equal], L', none, rfl, hL', move_keep (by simp [flatten]) (by simp) rfl, lastLex_other (by simp) (by simp)⟩
   · cases h
 
 
@@ -331,7 +346,7 @@ theorem tokenArm_move {tape : Tape} {parent : Nat} {state : PState} {d dp : Byte
     unfold openArm at h
     split at h
     · simp at h; subst h
-      exact ⟨[.open_], L', none, rfl, hL', move_keep (by simp [flatten]), lastLex_other (by simp) (by simp)⟩
+      exact ⟨[.open_], L', none, rfl, hL', move_keep (by simp [flatten]) (by simp) rfl, lastLex_other (by simp) (by simp)⟩
     · split at h
       · cases h
       · cases hrd : readId d with
@@ -366,8 +381,9 @@ theorem tokenArm_move {tape : Tape} {parent : Nat} {state : PState} {d dp : Byte
       | ok p =>
         obtain ⟨a, b, c⟩ := p
         simp [hp] at h; subst h
-        refine ⟨[.close], L', none, rfl, hL', move_keep (by simp [pushEnd_flat hp, h1]), ?_⟩
         obtain ⟨_, _, hkind⟩ := closeTo_kind hp
+        refine ⟨[.close], L', none, rfl, hL', move_keep (by simp [pushEnd_flat hp, h1]) (by simp)
+          (by rcases hkind with rfl | rfl <;> rfl), ?_⟩
         rcases hkind with rfl | rfl <;> exact lastLex_other (by simp) (by simp)
   rw [if_neg c10] at h
   by_cases c11 : tok = L.equal
@@ -395,7 +411,7 @@ theorem tokenArm_move {tape : Tape} {parent : Nat} {state : PState} {d dp : Byte
       obtain ⟨L', rfl, hL'⟩ := hL.uncons hid
       obtain ⟨L2, rfl, hL2⟩ := readRgb_lexes hrg L' hL'
       obtain ⟨a, b, c, al, rfl⟩ := readRgb_isRgb hrg
-      refine ⟨flatten (.rgb a b c al), L2, none, ?_, hL2, move_keep (by simp), lastLex_other (by simp) (by simp)⟩
+      refine ⟨flatten (.rgb a b c al), L2, none, ?_, hL2, move_keep (by simp) (by cases al <;> simp [flatten]) rfl, lastLex_other (by simp) (by simp)⟩
       cases al <;> simp [flatten]
   rw [if_neg c12, if_neg c13] at h
   refine scalarArm_move ?_ h
@@ -435,23 +451,15 @@ theorem step_move {st st' : St} (h : step st = .next st') (hll : LastLex st.tape
         obtain ⟨L1, L2, o, h1, h2, h3, h4⟩ := this L hL
         refine ⟨L1, L2, o, h1, h2, ?_, h4⟩
         have hf : flat (t0 ++ [BTok.mixed, x, y]) = flat st.tape := by rw [htape]; simp [flatten]
-        rw [hf] at h3; exact h3
+        rw [hf] at h3; rw [hs]; exact h3
       · exact tokenArm_move (dp := st.data) hr hd hll ht hg
-
-theorem Moves.trans {A B C L1 L2 : List Lx} {o1 o2 : List (List Lx)} (h1 : Moves A L1 B o1) (h2 : Moves B L2 C o2) :
-    Moves A (L1 ++ L2) C (o1 ++ o2) := by
-  induction h1 with
-  | nil A => simpa using h2
-  | step hm _ ih =>
-    have := Moves.step hm (ih h2)
-    simpa [List.append_assoc] using this
 
 theorem reach_moves {a b : St} (h : Reach a b) (hll : LastLex a.tape a.state)
     (ht : TInv a.tape a.parent a.state) (hg : GInv a.tape a.parent a.state) :
-    ∀ L, Lexes a.data L → ∃ L1 L2 odds, L = L1 ++ L2 ∧ Lexes b.data L2 ∧ Moves (flat a.tape) L1 (flat b.tape) odds := by
+    ∀ L, Lexes a.data L → ∃ L1 L2 odds, L = L1 ++ L2 ∧ Lexes b.data L2 ∧ Moves (owed a.state) (flat a.tape) L1 (flat b.tape) odds := by
   obtain ⟨k, hk⟩ := h
   induction k generalizing a with
-  | zero => simp [stepN] at hk; subst hk; intro L hL; exact ⟨[], L, [], rfl, hL, Moves.nil _⟩
+  | zero => simp [stepN] at hk; subst hk; intro L hL; exact ⟨[], L, [], rfl, hL, Moves.nil _ _⟩
   | succ k ih =>
     cases hst : step a with
     | next a' =>
@@ -466,7 +474,7 @@ theorem reach_moves {a b : St} (h : Reach a b) (hll : LastLex a.tape a.state)
 /-- **what happens to every lexeme of an accepted input**: the lexeme content of the tape is built from
 the lexeme list by `keep` / `eqAfterKey` / `ghost` / `rewrite` moves only -/
 theorem parse_moves (opt : Bool) (data : Bytes) (T : Tape) (h : parse opt data = .ok T) (L : List Lx)
-    (hL : Lexes data L) : ∃ odds, Moves [] L (flat T) odds := by
+    (hL : Lexes data L) : ∃ odds, Moves false [] L (flat T) odds := by
   have h' : parse false data = .ok T := by
     cases opt
     · exact h
@@ -483,7 +491,7 @@ theorem parse_moves (opt : Bool) (data : Bytes) (T : Tape) (h : parse opt data =
         | [_], _ => rfl
       simp [lexOne, this] at hx
   subst this
-  exact ⟨odds, by simpa [init] using h3⟩
+  exact ⟨odds, by simpa [init, owed] using h3⟩
 
 /-! ### consequences -/
 
@@ -493,15 +501,15 @@ theorem pairsLex_toks : ∀ n, (pairsLex n).filter Lx.isTok = []
 
 /-- scalar / id lexemes are never lost except in the `odd` chunk of a rewrite: as multisets,
 `toks A ++ toks L = toks C ++ toks (odd chunks)` -/
-theorem Moves.toks_perm {A L C : List Lx} {odds : List (List Lx)} (h : Moves A L C odds) :
+theorem Moves.toks_perm {p : Bool} {A L C : List Lx} {odds : List (List Lx)} (h : Moves p A L C odds) :
     (A.filter Lx.isTok ++ L.filter Lx.isTok).Perm (C.filter Lx.isTok ++ odds.flatten.filter Lx.isTok) := by
   induction h with
-  | nil A => simp
-  | @step A B C L1 L2 o odds hm _ ih =>
+  | nil p A => simp
+  | @step p q A B C L1 L2 o odds hm _ ih =>
     have hstep : (A.filter Lx.isTok ++ L1.filter Lx.isTok).Perm (B.filter Lx.isTok ++ (o.toList.flatten).filter Lx.isTok) := by
       cases hm with
       | keep => simp
-      | eqAfterKey A k => simp [Lx.isTok]
+      | eqAfterKey A k hk => simp [Lx.isTok]
       | ghost => simp [Lx.isTok]
       | rewrite A n odd last hn hlk hodd =>
         simp only [List.filter_append, pairsLex_toks, Option.toList_some, List.flatten_cons, List.flatten_nil,
@@ -527,11 +535,11 @@ theorem Moves.toks_perm {A L C : List Lx} {odds : List (List Lx)} (h : Moves A L
       exact List.Perm.append_left _ List.perm_append_comm
     exact e1.trans (e2.trans (e3.trans e4))
 
-theorem Moves.odds_shape {A L C : List Lx} {odds : List (List Lx)} (h : Moves A L C odds) :
+theorem Moves.odds_shape {p : Bool} {A L C : List Lx} {odds : List (List Lx)} (h : Moves p A L C odds) :
     ∀ o ∈ odds, o = [] ∨ ∃ y : BTok, o = flatten y ∧ y.isPlain = true := by
   induction h with
-  | nil A => simp
-  | @step A B C L1 L2 o odds hm _ ih =>
+  | nil p A => simp
+  | @step p q A B C L1 L2 o odds hm _ ih =>
     intro x hx
     simp at hx
     rcases hx with hx | hx
@@ -544,25 +552,202 @@ theorem Moves.odds_shape {A L C : List Lx} {odds : List (List Lx)} (h : Moves A 
 
 
 /-- without a `{` on the tape or in the input no rewrite can happen -/
-theorem Moves.no_open {A L C : List Lx} {odds : List (List Lx)} (h : Moves A L C odds)
+theorem Moves.no_open {p : Bool} {A L C : List Lx} {odds : List (List Lx)} (h : Moves p A L C odds)
     (hA : Lx.open_ ∉ A) (hL : Lx.open_ ∉ L) : odds = [] ∧ Lx.open_ ∉ C := by
   induction h with
-  | nil A => exact ⟨rfl, hA⟩
-  | @step A B C L1 L2 o odds hm _ ih =>
+  | nil p A => exact ⟨rfl, hA⟩
+  | @step p q A B C L1 L2 o odds hm _ ih =>
     simp only [List.mem_append, not_or] at hL
     cases hm with
     | keep =>
       obtain ⟨h1, h2⟩ := ih (by simp [hA, hL.1]) hL.2
       exact ⟨by simp [h1], h2⟩
-    | eqAfterKey A k =>
+    | eqAfterKey A k hk =>
       obtain ⟨h1, h2⟩ := ih hA hL.2
       exact ⟨by simp [h1], h2⟩
     | ghost => exact absurd (by simp) hL.1
     | rewrite A n odd last hn hlk hodd => exact absurd (by simp) hA
 
+/-! ### what the flags and the side conditions exclude -/
+
+theorem isKey_flatten {k : BTok} (h : k.isKey = true) : flatten k = [.tok k] := by
+  cases k <;> first | rfl | (simp [BTok.isKey, BTok.isVal, BTok.isPlain] at h)
+
+theorem Move.open_stays {p q : Bool} {A L1 B : List Lx} {o : Option (List Lx)} (h : Move p A L1 B o q)
+    (hA : Lx.open_ ∈ A) : Lx.open_ ∈ B := by
+  cases h with
+  | keep => simp [hA]
+  | eqAfterKey => exact hA
+  | ghost => exact hA
+  | rewrite => simp
+
+/-- a `{` on the tape never disappears altogether (a rewrite keeps the `{` of the rewritten container) -/
+theorem Moves.open_stays {p : Bool} {A L C : List Lx} {odds : List (List Lx)} (h : Moves p A L C odds)
+    (hA : Lx.open_ ∈ A) : Lx.open_ ∈ C := by
+  induction h with
+  | nil p A => exact hA
+  | step hm _ ih => exact ih (hm.open_stays hA)
+
+/-- an `=` on the tape stays unless a rewrite happens (which leaves a `{`) -/
+theorem Moves.equal_stays {p : Bool} {A L C : List Lx} {odds : List (List Lx)} (h : Moves p A L C odds)
+    (hC : Lx.open_ ∉ C) (hA : Lx.equal ∈ A) : Lx.equal ∈ C := by
+  induction h with
+  | nil p A => exact hA
+  | step hm hms ih =>
+    cases hm with
+    | keep => exact ih hC (by simp [hA])
+    | eqAfterKey => exact ih hC hA
+    | ghost => exact ih hC hA
+    | rewrite => exact absurd (hms.open_stays (by simp)) hC
+
+/-- **while a value is owed the next lexeme is recorded**: a `{` that follows a dropped `=` is on the tape -/
+theorem Moves.owed_open {A L C : List Lx} {odds : List (List Lx)} (h : Moves true A (Lx.open_ :: L) C odds) :
+    Lx.open_ ∈ C := by
+  generalize hL : Lx.open_ :: L = L0 at h
+  generalize hp : true = p at h
+  cases h with
+  | nil => cases hL
+  | step hm hms =>
+    subst hp
+    rename_i L1 L2 o odds'
+    cases hm with
+    | keep _ _ _ hne =>
+      cases L1 with
+      | nil => exact absurd rfl hne
+      | cons x L1' =>
+        simp at hL; obtain ⟨rfl, _⟩ := hL
+        exact hms.open_stays (by simp)
+
+/-- **an empty (or any) container in value position is never dropped**: if neither `{` nor `=` is on the tape,
+the input has no `= {` -/
+theorem Moves.eq_open_kept {p : Bool} {A L C : List Lx} {odds : List (List Lx)} (h : Moves p A L C odds)
+    (hC : Lx.open_ ∉ C) (hE : Lx.equal ∉ C) : ∀ L' L'', L ≠ L' ++ Lx.equal :: Lx.open_ :: L'' := by
+  induction h with
+  | nil p A => intro L' L'' h; simp at h
+  | step hm hms ih =>
+    intro L' L'' he
+    rcases List.append_eq_append_iff.mp he with ⟨a', h1, h2⟩ | ⟨c', h1, h2⟩
+    · exact ih hC hE a' L'' h2
+    · cases c' with
+      | nil => simp at h2; exact ih hC hE [] L'' (by simpa using h2.symm)
+      | cons x c'' =>
+        simp at h2; obtain ⟨hx, h2⟩ := h2
+        subst hx
+        cases hm with
+        | keep p A L1 hne => subst h1; exact hE (hms.equal_stays hC (by simp))
+        | eqAfterKey A0 k hk =>
+          have hl := congrArg List.length h1
+          simp at hl
+          have hc : c'' = [] := List.eq_nil_of_length_eq_zero (by omega)
+          subst hc
+          simp at h2; subst h2
+          exact hC hms.owed_open
+        | ghost A0 =>
+          cases L' with
+          | nil => simp at h1
+          | cons y L'1 =>
+            simp at h1
+            obtain ⟨_, h1⟩ := h1
+            cases L'1 with
+            | nil => simp at h1
+            | cons z L'2 => simp at h1
+        | rewrite => exact hC (hms.open_stays (by simp))
+
+/-- reading lexemes other than `=` and `{` only appends -/
+theorem Moves.only_keep {p : Bool} {A L C : List Lx} {odds : List (List Lx)} (h : Moves p A L C odds)
+    (hE : Lx.equal ∉ L) (hO : Lx.open_ ∉ L) : C = A ++ L ∧ odds = [] := by
+  induction h with
+  | nil p A => simp
+  | step hm _ ih =>
+    simp only [List.mem_append, not_or] at hE hO
+    cases hm with
+    | keep p A L1 hne =>
+      obtain ⟨h1, h2⟩ := ih hE.2 hO.2
+      exact ⟨by simp [h1], by simp [h2]⟩
+    | eqAfterKey => exact absurd (by simp) hE.1
+    | ghost => exact absurd (by simp) hO.1
+    | rewrite => exact absurd (by simp) hE.1
+
+/-- **the last `=` of the input**, followed by lexemes `R` without `{`: it is on the tape, or the tape ends
+with a key token and `R` -/
+theorem Moves.last_equal {p : Bool} {A L C : List Lx} {odds : List (List Lx)} (h : Moves p A L C odds) :
+    ∀ L' R, L = L' ++ Lx.equal :: R → Lx.equal ∉ R → Lx.open_ ∉ R →
+      Lx.equal ∈ C ∨ ∃ C' k, BTok.isKey k = true ∧ C = C' ++ Lx.tok k :: R := by
+  induction h with
+  | nil p A => intro L' R h; simp at h
+  | step hm hms ih =>
+    intro L' R he hE hO
+    rcases List.append_eq_append_iff.mp he with ⟨a', h1, h2⟩ | ⟨c', h1, h2⟩
+    · exact ih a' R h2 hE hO
+    · cases c' with
+      | nil => simp at h2; exact ih [] R (by simpa using h2.symm) hE hO
+      | cons x c'' =>
+        simp at h2; obtain ⟨hx, h2⟩ := h2
+        subst hx; subst h2
+        simp only [List.mem_append, not_or] at hE hO
+        obtain ⟨hC, _⟩ := hms.only_keep hE.2 hO.2
+        cases hm with
+        | keep p A L1 hne => subst h1; left; rw [hC]; simp
+        | eqAfterKey A0 k hk =>
+          have hl := congrArg List.length h1
+          simp at hl
+          have hc : c'' = [] := List.eq_nil_of_length_eq_zero (by omega)
+          subst hc
+          right; exact ⟨A0, k, hk, by rw [hC]; simp⟩
+        | ghost A0 =>
+          cases L' with
+          | nil => simp at h1
+          | cons y L'1 =>
+            simp at h1
+            obtain ⟨_, h1⟩ := h1
+            cases L'1 with
+            | nil => simp at h1
+            | cons z L'2 => simp at h1
+        | rewrite A0 n odd last hn hlk hodd =>
+          have hl := congrArg List.length h1
+          simp at hl
+          have hc : c'' = [] := List.eq_nil_of_length_eq_zero (by omega)
+          subst hc
+          right; exact ⟨A0 ++ [.open_], last, hlk, by rw [hC, isKey_flatten hlk]; simp⟩
+
+/-- NON-instance (reviewer's A): `a = {} b = c` with content `[a, b, c]` — an empty container in VALUE
+position dropped as if it were a ghost — is not explained: while a value is owed only `keep` is possible -/
+example : ¬ ∃ odds, Moves false [] [.tok (.token 1), .equal, .open_, .close, .tok (.token 2), .equal, .tok (.token 3)]
+    [.tok (.token 1), .tok (.token 2), .tok (.token 3)] odds := by
+  rintro ⟨odds, h⟩
+  exact h.eq_open_kept (by simp) (by simp) [.tok (.token 1)] [.close, .tok (.token 2), .equal, .tok (.token 3)] rfl
+
+/-- NON-instance (reviewer's B): `a = { {} } = b` with content `[a, {, }, b]` (a rewrite whose `last` would be
+the `End` token) is not explained: `last` must be a key token -/
+example : ¬ ∃ odds, Moves false [] [.tok (.token 1), .equal, .open_, .open_, .close, .close, .equal, .tok (.token 2)]
+    [.tok (.token 1), .open_, .close, .tok (.token 2)] odds := by
+  rintro ⟨odds, h⟩
+  rcases h.last_equal [.tok (.token 1), .equal, .open_, .open_, .close, .close] [.tok (.token 2)] rfl (by simp) (by simp)
+    with h1 | ⟨C', k, _, h1⟩
+  · simp at h1
+  · have : C' ++ [Lx.tok k] ++ [.tok (.token 2)] = [.tok (.token 1), .open_] ++ [.close] ++ [.tok (.token 2)] := by
+      simpa using h1.symm
+    have h2 := List.append_inj_left' this rfl
+    have h3 := List.append_inj_right' h2 rfl
+    simp at h3
+
+/-- NON-instance (reviewer's C): `{ {} = b }` with content `[{, b, }]` (a rewrite whose `last` would be the
+`MixedContainer` marker, which has no content) is not explained -/
+example : ¬ ∃ odds, Moves false [] [.open_, .open_, .close, .equal, .tok (.token 2), .close]
+    [.open_, .tok (.token 2), .close] odds := by
+  rintro ⟨odds, h⟩
+  rcases h.last_equal [.open_, .open_, .close] [.tok (.token 2), .close] rfl (by simp) (by simp)
+    with h1 | ⟨C', k, _, h1⟩
+  · simp at h1
+  · have : C' ++ [Lx.tok k] ++ [.tok (.token 2), .close] = [] ++ [.open_] ++ [.tok (.token 2), .close] := by
+      simpa using h1.symm
+    have h2 := List.append_inj_left' this rfl
+    have h3 := List.append_inj_right' h2 rfl
+    simp at h3
+
 /-- NON-instance: a tape that silently drops an ordinary scalar — input `a = b`, tape content `[a]` — is not
 explained by any run of moves -/
-example : ¬ ∃ odds, Moves [] [.tok (.token 1), .equal, .tok (.token 2)] [.tok (.token 1)] odds := by
+example : ¬ ∃ odds, Moves false [] [.tok (.token 1), .equal, .tok (.token 2)] [.tok (.token 1)] odds := by
   rintro ⟨odds, h⟩
   have h0 := h.no_open (by simp) (by simp)
   have hp := h.toks_perm
@@ -571,10 +756,10 @@ example : ¬ ∃ odds, Moves [] [.tok (.token 1), .equal, .tok (.token 2)] [.tok
   simp [List.filter, Lx.isTok] at this
 
 /-- an instance: `a = b` with the `=` dropped behind the key -/
-example : Moves [] [.tok (.token 1), .equal, .tok (.token 2)] [.tok (.token 1), .tok (.token 2)] [] := by
-  have m1 : Move [] [.tok (.token 1)] [.tok (.token 1)] none := Move.keep [] _
-  have m2 : Move [.tok (.token 1)] [.equal] [.tok (.token 1)] none := Move.eqAfterKey [] (.token 1)
-  have m3 : Move [.tok (.token 1)] [.tok (.token 2)] [.tok (.token 1), .tok (.token 2)] none := Move.keep _ _
-  exact Moves.step m1 (Moves.step m2 (Moves.step m3 (Moves.nil _)))
+example : Moves false [] [.tok (.token 1), .equal, .tok (.token 2)] [.tok (.token 1), .tok (.token 2)] [] := by
+  have m1 : Move false [] [.tok (.token 1)] [.tok (.token 1)] none false := Move.keep _ [] _ (by simp)
+  have m2 : Move false [.tok (.token 1)] [.equal] [.tok (.token 1)] none true := Move.eqAfterKey [] (.token 1) rfl
+  have m3 : Move true [.tok (.token 1)] [.tok (.token 2)] [.tok (.token 1), .tok (.token 2)] none false := Move.keep _ _ _ (by simp)
+  exact Moves.step m1 (Moves.step m2 (Moves.step m3 (Moves.nil _ _)))
 
 end Jomini.BinTape
